@@ -13,6 +13,7 @@ import (
 	"sync"
 	"time"
 
+	"github.com/gammazero/nexus/v3/client"
 	"github.com/gammazero/nexus/v3/router"
 	"github.com/gammazero/nexus/v3/transport"
 	"github.com/gammazero/nexus/v3/transport/serialize"
@@ -152,6 +153,26 @@ func (n *liveNet) connect(ser serialize.Serialization, recvLimit int) (wamp.Peer
 	default:
 		return transport.ConnectWebsocketPeer(ctx, "ws://"+n.addr+"/ws", ser, nil, n.log, nil)
 	}
+}
+
+// realClient connects the project's client library (client.ConnectNet) to the live servers.
+func (n *liveNet) realClient(ser serialize.Serialization) (*client.Client, error) {
+	ctx, cancel := context.WithTimeout(context.Background(), liveWatchdog)
+	defer cancel()
+	cfg := client.Config{Realm: "realm1", Serialization: ser, ResponseTimeout: liveWatchdog, Logger: n.log}
+	var u string
+	switch n.kind {
+	case "raw-unix":
+		u = "unix://" + n.addr
+	case "raw-tcp":
+		u = "tcp://" + n.addr + "/"
+	case "ws-unix":
+		u = "ws://live.invalid/ws"
+		cfg.WsCfg.Dial = func(network, addr string) (net.Conn, error) { return net.Dial("unix", n.addr) }
+	default:
+		u = "ws://" + n.addr + "/ws"
+	}
+	return client.ConnectNet(ctx, u, cfg)
 }
 
 // liveSess is a session driven message by message over a real client transport.
@@ -553,6 +574,23 @@ func runC15Live(c *Case) {
 		inconclusive("subscribe not answered")
 		return
 	}
+	// a third session uses the client library itself (client.ConnectNet) and receives what B receives
+	rc, err := ln.realClient(pick(r, liveSers))
+	if err != nil {
+		inconclusive("client.ConnectNet failed: " + err.Error())
+		return
+	}
+	defer rc.Close()
+	var rcMu sync.Mutex
+	var rcGot []wamp.Message
+	if err := rc.Subscribe("to.b", func(ev *wamp.Event) {
+		rcMu.Lock()
+		rcGot = append(rcGot, ev)
+		rcMu.Unlock()
+	}, nil); err != nil {
+		inconclusive("client.Subscribe failed: " + err.Error())
+		return
+	}
 	type sent struct {
 		seq, wire int
 		fits     bool
@@ -696,6 +734,23 @@ func runC15Live(c *Case) {
 	}
 	check("B", b.snapshot(), aToB, effSrv)
 	check("A", a.snapshot(), bToA, effCli)
+	// the client library's subscriber: wait (closed loop) for the end marker, then the same comparison
+	rcEnd := func() bool {
+		rcMu.Lock()
+		defer rcMu.Unlock()
+		return sawEnd(rcGot)
+	}
+	for i := 0; i < 9000 && !rcEnd(); i++ {
+		time.Sleep(10 * time.Millisecond)
+	}
+	if !rcEnd() {
+		inconclusive("end marker did not reach the client library's subscriber")
+		return
+	}
+	rcMu.Lock()
+	got := append([]wamp.Message(nil), rcGot...)
+	rcMu.Unlock()
+	check("client.Client subscriber", got, aToB, effSrv)
 	c.Hit("LV4")
 	c.NT = isRaw && (effSrv <= 1<<20 || effCli <= 1<<20)
 	c.Sample = map[string]any{"workload": "live sizes", "server": kind, "server_recv_limit": srvLimit, "client_recv_limit": cliLimit, "a_to_b": sentSummary(aToB), "b_to_a": sentSummary(bToA)}
